@@ -130,6 +130,14 @@ func NewRouterInfo(
 		return nil, oops.Errorf("router must have at least one address")
 	}
 
+	// ReadRouterInfo refuses a RouterInfo whose identity declares a prohibited key type;
+	// do not build (and sign) one around a caller-assembled identity either.
+	if routerIdentity != nil {
+		if err := routerIdentity.Validate(); err != nil {
+			return nil, oops.Errorf("invalid router identity: %w", err)
+		}
+	}
+
 	publishedDate, err := createPublishedDate(publishedTime)
 	if err != nil {
 		return nil, err
